@@ -47,6 +47,66 @@ class Eater:
         return self.pos == len(self.t)
 
 
+def file_constants(filetext):
+    """file-level integer constants: `#define NAME 64` and `enum { NAME = 64, ... }`"""
+    consts = {}
+    for m in re.finditer(r'^[ \t]*#[ \t]*define[ \t]+(' + ID + r')[ \t]+\(?(\d+)\)?[ \t]*$', filetext, re.M):
+        consts[m.group(1)] = int(m.group(2))
+    for em in re.finditer(r'\benum\s*(?:' + ID + r'\s*)?\{([^{}]*)\}', filetext):
+        for m in re.finditer(r'(' + ID + r')\s*=\s*(\d+)', em.group(1)):
+            consts[m.group(1)] = int(m.group(2))
+    return consts
+
+
+def file_macros(filetext):
+    """file-level function-like macros: NAME -> (params, body), continuation lines joined"""
+    t = re.sub(r'\\\n', ' ', filetext)
+    macros = {}
+    for m in re.finditer(r'^[ \t]*#[ \t]*define[ \t]+(' + ID + r')\(([^)]*)\)[ \t]+(.*)$', t, re.M):
+        macros[m.group(1)] = ([p.strip() for p in m.group(2).split(',') if p.strip()], m.group(3).strip())
+    return macros
+
+
+def _split_args(s):
+    out, depth, cur = [], 0, ''
+    for ch in s:
+        if ch == ',' and depth == 0:
+            out.append(cur.strip()); cur = ''
+        else:
+            depth += ch in '([{'; depth -= ch in ')]}'
+            cur += ch
+    if cur.strip() or out: out.append(cur.strip())
+    return out
+
+
+def expand(text, filetext):
+    """one level of the file's own function-like macros is expanded in place, its integer constants are
+    replaced by their values, and spelling that cannot change the meaning is removed: parentheses around a
+    single identifier or number, the cast in `(char*)malloc(..)`, the statement wrapper `do { .. } while (0)`"""
+    macros, consts = file_macros(filetext), file_constants(filetext)
+    for name, (params, mbody) in macros.items():
+        while True:
+            m = re.search(r'\b' + re.escape(name) + r'\(', text)
+            if not m: break
+            i, depth = m.end(), 1
+            while i < len(text) and depth:
+                depth += text[i] == '('; depth -= text[i] == ')'; i += 1
+            args = _split_args(text[m.end():i - 1])
+            if len(args) != len(params): return text[:m.start()] + '@BADMACRO@' + text[i:]
+            b = mbody
+            for p_, a_ in zip(params, args):
+                b = re.sub(r'\b' + re.escape(p_) + r'\b', lambda _m, a_=a_: a_, b)
+            text = text[:m.start()] + b + text[i:]
+    for name, v in consts.items():
+        text = re.sub(r'\b' + re.escape(name) + r'\b', str(v), text)
+    text = re.sub(r'\s+', ' ', text)
+    text = re.sub(r'\(char ?\*\) ?malloc\(', 'malloc(', text)
+    for _ in range(3):
+        text = re.sub(r'(?<![\w\]])(?<!while )(?<!if )(?<!switch )(?<!for )\((\w+)\)', r'\1', text)   # (x) -> x, not a call's argument list nor a statement's condition
+    text = re.sub(r'\bdo \{ (.*?) \} while \(0\);', r'\1', text)
+    return text
+
+
 def resolve_set(tok, filetext):
     """a strchr/strcspn set: a literal, or a file-level `static const char* NAME = "..."` / `NAME[] = "..."`
     (a named constant is the literal it is initialised with, provided it is const and assigned nowhere)"""
@@ -62,12 +122,40 @@ def resolve_set(tok, filetext):
 
 def parse_print_to_with(body, filetext):
     """-> dict(convs, int_convs, float_convs, nul_hits, pct_skip, buf_extra, forms) or None"""
-    e = Eater(norm(body))
+    e = Eater(norm(expand(body, filetext)))
     eat = e.eat
-    r = {'forms': []}
-    m = eat(r'\{ char ?\* ?fmt_buf = malloc\(strlen\(fmt\) ?(?:\+ ?(\d+))?\); size_t index = 0; ')
-    if not m: return None
-    r['buf_extra'] = int(m.group(1) or 0)
+    r = {'forms': [], 'stack_cap': 0, 'stack_test': 1}
+    # the piece buffer.  A: malloc(strlen(fmt)+K), freed at the end.  B: a stack array of N bytes is used when
+    #   strlen(fmt)+T <= N (or <), malloc(strlen(fmt)+K) otherwise, freed only in that case (the size may go through a
+    #   local, a file-level macro or constant).  What the scanner needs is capacity >= strlen(fmt)+1 in both cases:
+    #   NOT decided here - K, N, T go to Coq (print_buf_extra, print_buf_stack_cap, print_buf_stack_test) and the theorems
+    #   hold for every K >= 1 and T >= 1 (FormatProofs.bufsize_gt).
+    stack = None
+    m = eat(r'\{ char ?\* ?fmt_buf = malloc\(strlen\(fmt\) ?(?:\+ ?(\d+))?\); ')
+    if m:
+        r['buf_extra'] = int(m.group(1) or 0)
+        r['forms'].append('buf:heap')
+    else:
+        m = eat(r'\{ char (?P<s>' + ID + r')\[(?P<n>\d+)\]; ')
+        if not m: return None
+        stack, r['stack_cap'] = m.group('s'), int(m.group('n'))
+        need = r'strlen\(fmt\) ?(?:\+ ?(\d+))?'
+        mv = eat(r'size_t (?P<v>' + ID + r') = ' + need + r'; ')
+        if mv:
+            k = int(mv.group(2) or 0)
+            m = eat(r'char ?\* ?fmt_buf = \(?' + mv.group('v') + r' (?P<op><=|<) (?:sizeof ?\(? ?' + stack + r' ?\)?|' + str(r['stack_cap']) + r') \? '
+                    + stack + r' : malloc\(' + mv.group('v') + r'\)\)?; ')
+            if not m: return None
+            t_, k_ = k, k
+        else:
+            m = eat(r'char ?\* ?fmt_buf = \(?' + need + r' (?P<op><=|<) (?:sizeof ?\(? ?' + stack + r' ?\)?|' + str(r['stack_cap']) + r') \? '
+                    + stack + r' : malloc\(' + need + r'\)\)?; ')
+            if not m: return None
+            t_, k_ = int(m.group(1) or 0), int(m.group(3) or 0)
+        r['stack_test'] = t_ + (1 if m.group('op') == '<' else 0)
+        r['buf_extra'] = k_
+        r['forms'].append('buf:stack-or-heap')
+    if not eat(r'size_t index = 0; '): return None
     # loop head: `while (true) { if (*fmt is NUL) { break; }` == `while (*fmt isnt NUL) {` == `while (*fmt) {`
     #   (the test is the first statement of the body and nothing follows the loop but free/return)
     if eat(r"while \(true\) \{ if \(\*fmt is '\\0'\) \{ break; \} "): r['forms'].append('loop:true+break')
@@ -163,15 +251,39 @@ def parse_print_to_with(body, filetext):
         if not eat(r"fmt\+\+; (?:continue; )?\} "): return None
     else:
         if not eat(r"fmt\+\+; continue; \} " + THROW + r" \} "): return None
-    if not eat(r"free\(fmt_buf\); return pos; \}$"): return None
+    if stack:
+        if not eat(r"if \(fmt_buf isnt " + stack + r"\) \{ free\(fmt_buf\); \} return pos; \}$"): return None
+    else:
+        if not eat(r"free\(fmt_buf\); return pos; \}$"): return None
     return r
 
 
-def _strip_checks(gen):
+ALLOC_IF = (r"if \(header\(self\)->alloc is \(var\)AllocStack or header\(self\)->alloc is \(var\)AllocStatic\) "
+            r"\{ throw\(ValueError, [^;]*\); \}")
+ALLOC_SWITCH = (r"switch \(\((?:intptr_t|uintptr_t|size_t|long)\) ?header\(self\)->alloc\) \{ case AllocStack: case AllocStatic: "
+                r"throw\(ValueError, [^;]*\); default: ?break; \}")
+
+
+def guard_helpers(filetext, func_body):
+    """names of file-level helpers `static void NAME(var self, ..)` whose whole body is the "not on heap -> ValueError"
+    refusal (if- or switch-spelling, with or without the CELLO_ALLOC_CHECK guard): a call NAME(self, ..); is that refusal"""
+    names = []
+    for m in re.finditer(r'static\s+void\s+(' + ID + r')\s*\(\s*var\s+self\s*(?:,[^)]*)?\)\s*\{', filetext):
+        b = func_body(filetext, r'static\s+void\s+' + m.group(1) + r'\s*\([^)]*\)\s*\{')
+        if not b: continue
+        t = norm(b)
+        core = r'(?:' + ALLOC_IF + r'|' + ALLOC_SWITCH + r')'
+        if re.fullmatch(r'\{ (?:#if CELLO_ALLOC_CHECK (?:==|is) 1 ' + core + r' #endif|' + core + r') \}', t):
+            names.append(m.group(1))
+    return names
+
+
+def _strip_checks(gen, helpers=()):
     """the build-option guarded checks (not on heap -> ValueError, allocation failed -> OutOfMemoryError) are
-    outside the model; they are removed wherever they stand"""
-    gen = re.sub(r"#if CELLO_ALLOC_CHECK (?:==|is) 1 if \(header\(self\)->alloc is \(var\)AllocStack or header\(self\)->alloc is \(var\)AllocStatic\) "
-                 r"\{ throw\(ValueError, [^;]*\); \} #endif ", '', gen)
+    outside the model; they are removed wherever they stand, inline or as a call of a recognised refusal helper"""
+    gen = re.sub(r"#if CELLO_ALLOC_CHECK (?:==|is) 1 " + ALLOC_IF + r" #endif ", '', gen)
+    for h in helpers:
+        gen = re.sub(r"\b" + re.escape(h) + r"\(self(?:, " + STRN + r")?\); ", '', gen)
     gen = re.sub(r"#if CELLO_MEMORY_CHECK (?:==|is) 1 if \((?:s->val|tmp) is NULL\) \{ throw\(OutOfMemoryError, [^;]*\); \} #endif ", '', gen)
     return gen
 
@@ -199,7 +311,7 @@ def _heap_limit(cond, buf, cap):
     return None
 
 
-def parse_string_format_to(fb):
+def parse_string_format_to(fb, helpers=()):
     """generic (non-Windows, non-Mac) branch of String_Format_To -> dict(room, cap, limit, form) or None.
        form 0  size = vsnprintf(NULL,0,..va_tmp); realloc(pos+size+K); return vsprintf(val+pos, fmt, va);
        form 1  ..; tmp = malloc(size+1); vsprintf(tmp, fmt, va); realloc(pos+size+K); memcpy(val+pos, tmp, size+1); free(tmp); return size;
@@ -214,7 +326,7 @@ def parse_string_format_to(fb):
     i = fb.rfind('#else')
     gen = norm(fb[i + len('#else'):] if i >= 0 else fb)
     gen = re.sub(r' ?#endif \}$', '', gen).strip() if i >= 0 else gen
-    gen = _strip_checks(gen + ' ')
+    gen = _strip_checks(gen + ' ', helpers)
     if len(re.findall(r'\bva\b', gen)) != 2:
         return None
     e = Eater(gen)
@@ -252,8 +364,54 @@ def parse_string_format_to(fb):
     return {'room': int(m.group('k') or 0), 'cap': cap, 'limit': limit, 'form': 'stack-buffer'}
 
 
-def parse_file_format_to(fb):
-    """the whole body is: fetch f, refuse a closed file, `return vfprintf(f->file, fmt, va);` - va consumed once"""
+def stream_helpers(filetext, func_body):
+    """file-level helpers `static FILE* NAME(var self, ..)` whose whole body is: fetch the stream of self, refuse a closed
+    file with IOError, return the stream.  NAME(self, ..) then stands for f->file behind the closed-file test."""
+    names = []
+    for m in re.finditer(r'static\s+FILE\s*\*\s*(' + ID + r')\s*\(\s*var\s+self\s*(?:,[^)]*)?\)\s*\{', filetext):
+        b = func_body(filetext, r'static\s+FILE\s*\*\s*' + m.group(1) + r'\s*\([^)]*\)\s*\{')
+        if not b: continue
+        t = norm(b)
+        if (re.fullmatch(r'\{ struct File ?\* ?f = self; FILE ?\* ?(' + ID + r') = f->file; if \(\1 is NULL\) \{ throw\(IOError, [^;]*\); \} return \1; \}', t)
+                or re.fullmatch(r'\{ struct File ?\* ?f = self; if \(f->file is NULL\) \{ throw\(IOError, [^;]*\); \} return f->file; \}', t)):
+            names.append(m.group(1))
+    return names
+
+
+def parse_file_format_to(fb, helpers=()):
+    """the whole body is: refuse a closed file, then `return vfprintf(<the stream>, fmt, va);` - va consumed exactly once.
+    The closed-file test may be inline or inside a recognised stream helper (called directly or through one local)."""
     t = norm(fb)
-    return bool(re.fullmatch(r'\{ struct File ?\* ?f = self; if \(f->file is NULL\) \{ throw\(IOError, [^;]*\); \} '
-                             r'return vfprintf\(f->file, fmt, va\); \}', t))
+    if len(re.findall(r'\bva\b', t)) != 1:
+        return False
+    if re.fullmatch(r'\{ struct File ?\* ?f = self; if \(f->file is NULL\) \{ throw\(IOError, [^;]*\); \} '
+                    r'return vfprintf\(f->file, fmt, va\); \}', t):
+        return True
+    for h in helpers:
+        call = re.escape(h) + r'\(self(?:, ' + STRN + r')?\)'
+        if re.fullmatch(r'\{ return vfprintf\(' + call + r', fmt, va\); \}', t):
+            return True
+        if re.fullmatch(r'\{ FILE ?\* ?(' + ID + r') = ' + call + r'; return vfprintf\(\1, fmt, va\); \}', t):
+            return True
+    return False
+
+
+def parse_number_show(fb, kind):
+    """Int_Show / Float_Show -> the format string handed to the sink for the object's C value, or None.
+       A  return print_to(output, pos, "<fmt>", self);
+       B  [T val = GET(self);] int off = format_to(output, pos, "<fmt>", val | GET(self)); if (off < 0) { throw(FormatError, ..); }
+          return pos + off;            GET = Int_C_Int / c_int (T long or int64_t)  resp.  Float_C_Float / c_float (T double)
+          - this is what print_to does for a format that is one specification: one format_to call with that piece and the
+          object's C value, FormatError on a negative count, position + count."""
+    t = norm(fb)
+    m = re.fullmatch(r'\{ return print_to\(output, pos, ' + STR + r', self\); \}', t)
+    if m: return m.group(1)
+    get = r'(?:Int_C_Int|c_int)\(self\)' if kind == 'int' else r'(?:Float_C_Float|c_float)\(self\)'
+    ty = r'(?:long|int64_t|long long)' if kind == 'int' else r'double'
+    m = re.fullmatch(r'\{ (?:' + ty + r' (?P<v>' + ID + r') = ' + get + r'; )?int (?P<o>' + ID + r') = format_to\(output, pos, ' + STR
+                     + r', (?P<a>' + ID + r'|' + get + r')\); if \((?P=o) < 0\) \{ ' + THROW + r' \} return pos \+ (?P=o); \}', t)
+    if not m: return None
+    if m.group('v'):
+        if m.group('a') != m.group('v'): return None
+    elif not re.fullmatch(get, m.group('a')): return None
+    return m.group(3)
